@@ -126,7 +126,13 @@ function inject(rng, fs_, st) {
       else {
         const cands = t.attrs.filter((a) => ['plain', 'id', 'class', 'style', 'slot', 'data:', 'mark', 'model', 'change', 'worklet', 'generic', 'extra-attr'].includes(a.fam)) // (several event bindings of one name are legal: the pinned test parse::tag::test::event_listener keeps both)
         if (!cands.length) extra = [{ fam: 'plain', name: 'dup', value: M.sv('1') }, { fam: 'plain', name: 'dup', value: M.sv('2') }]
-        else extra = [clone(rng.pick(cands))]
+        else {
+          const pick = rng.pick(cands)
+          extra = [clone(pick)]
+          // `model:my-value` and a plain `my-value` name the same property (the model: name is stored camel-cased)
+          if (pick.fam === 'model' && rng.bool(0.5)) extra = [{ fam: 'plain', name: pick.name, value: M.sv('1') }]
+          else if (pick.fam === 'plain' && /-/.test(pick.name) && !/^(data|bind|catch|on|capture|mut)/.test(pick.name) && t.tag !== 'slot' && rng.bool(0.5)) extra = [{ fam: 'model', name: pick.name, value: M.ev(X.id('a')) }]
+        }
       }
       const f = withReplaced(t, (n) => ({ ...n, attrs: [...n.attrs, ...extra] }))
       return f && { text: M.printFile(f, { ...st, shuffleAttrs: false }), kind, site: 'element <' + t.tag + '> + ' + extra.map((a) => M.attrSourceName(a)).join(',') }
